@@ -17,10 +17,22 @@
 (* duration is computed in uint64, so a deadline BEFORE the wheel's time   *)
 (* (a write that sampled the clock before a later sweep) wraps to a huge   *)
 (* duration and the timer is parked in the overflow bucket (finding F8).   *)
+(*                                                                         *)
+(* Due = FALSE models the first repair of F8 (the deadline clamped to the  *)
+(* wheel's time: the timer lands in the slot of the current tick, which is *)
+(* visited only when the wheel turns): a write whose event is replayed in  *)
+(* the same tick as a sweep that ran - at a later clock value - without    *)
+(* knowing the entry waits for the next tick boundary, although deadline   *)
+(* and write lie more than a tick back (finding F23: SweptWithinTick, now  *)
+(* stated without the excuse "scheduled less than a tick ago" - the write  *)
+(* may have returned long before its event is replayed - is violated).     *)
+(* Due = TRUE: a                                                           *)
+(* timer that is already due when it is scheduled goes to a list that      *)
+(* every run empties, whether the wheel turns or not.                      *)
 (***************************************************************************)
 EXTENDS Integers, Sequences, FiniteSets, TLC
 
-CONSTANTS Timers, MaxTime, Buckets, Shift, Clamp
+CONSTANTS Timers, MaxTime, Buckets, Shift, Clamp, Due
 
 L == Len(Buckets)
 RECURSIVE Pow2(_)
@@ -28,10 +40,12 @@ Pow2(n) == IF n = 0 THEN 1 ELSE 2 * Pow2(n - 1)
 Span(i) == Pow2(Shift[i])                 \* time units per slot at level i
 Tick == Span(1)
 None == <<0, 0>>
+DueList == <<0, 1>>                       \* the list of timers that were due when they were scheduled
 HUGE == 2000000000
 
-VARIABLES time, where, dl, expired, schedAt
-vars == <<time, where, dl, expired, schedAt>>
+\* tog flips at every maintenance run (a run may happen at an unchanged time)
+VARIABLES time, where, dl, expired, schedAt, tog
+vars == <<time, where, dl, expired, schedAt, tog>>
 
 FindBucket(now, exp) ==
     LET e == IF Clamp /\ exp < now THEN now ELSE exp
@@ -39,22 +53,25 @@ FindBucket(now, exp) ==
         lv == IF \E i \in 1 .. (L - 1) : duration < Span(i + 1)
               THEN CHOOSE i \in 1 .. (L - 1) : duration < Span(i + 1) /\ \A j \in 1 .. (i - 1) : ~(duration < Span(j + 1))
               ELSE L
-    IN IF lv = L THEN <<L, 0>> ELSE <<lv, (e \div Span(lv)) % Buckets[lv]>>
+    IN IF Due /\ exp < now THEN DueList
+       ELSE IF lv = L THEN <<L, 0>> ELSE <<lv, (e \div Span(lv)) % Buckets[lv]>>
 
-Init == time = 0 /\ where = [t \in Timers |-> None] /\ dl = [t \in Timers |-> 0] /\ expired = {} /\ schedAt = [t \in Timers |-> 0]
+Init == /\ time = 0 /\ where = [t \in Timers |-> None] /\ dl = [t \in Timers |-> 0] /\ expired = {} /\ schedAt = [t \in Timers |-> 0]
+        /\ tog = FALSE
 
 \* a write computed deadline d (possibly before the wheel's time: the racing write) and its add task is replayed now
+\* (the write may have returned long before: sweeps may have run at later times before its event is replayed)
 Schedule(t, d) ==
     /\ where[t] = None /\ t \notin expired
     /\ dl' = [dl EXCEPT ![t] = d]
     /\ where' = [where EXCEPT ![t] = FindBucket(time, d)]
     /\ schedAt' = [schedAt EXCEPT ![t] = time]
-    /\ UNCHANGED <<time, expired>>
+    /\ UNCHANGED <<time, expired, tog>>
 
 Deschedule(t) ==
     /\ where[t] # None
     /\ where' = [where EXCEPT ![t] = None]
-    /\ UNCHANGED <<time, dl, expired, schedAt>>
+    /\ UNCHANGED <<time, dl, expired, schedAt, tog>>
 
 \* a read extends the deadline of a scheduled timer in place; its event may be dropped by the lossy read buffer, so the
 \* timer is NOT moved - the next sweep that passes its bucket re-schedules it ("provided reads only ever extend deadlines")
@@ -62,7 +79,7 @@ Extend(t, d) ==
     /\ where[t] # None
     /\ d > dl[t]
     /\ dl' = [dl EXCEPT ![t] = d]
-    /\ UNCHANGED <<time, where, expired, schedAt>>
+    /\ UNCHANGED <<time, where, expired, schedAt, tog>>
 
 \* slots visited at level i when the clock moves from prev to cur
 Visited(i, prev, cur) ==
@@ -74,28 +91,34 @@ Visited(i, prev, cur) ==
 \* the loop over levels stops at the first level whose tick did not advance
 Active(i, prev, cur) == \A j \in 1 .. i : (cur \div Span(j)) - (prev \div Span(j)) > 0
 
+\* a timer is looked at by the run that moves the wheel from prev to cur
+Hit(w, prev, cur) == /\ w # None
+                     /\ \/ w = DueList
+                        \/ /\ w # DueList
+                           /\ Active(w[1], prev, cur)
+                           /\ w[2] \in Visited(w[1], prev, cur)
+
 Advance(T) ==
-    /\ T > time /\ T <= MaxTime
-    /\ LET hit(t) == /\ where[t] # None
-                     /\ Active(where[t][1], time, T)
-                     /\ where[t][2] \in Visited(where[t][1], time, T)
+    /\ T >= time /\ T <= MaxTime
+    /\ LET hit(t) == Hit(where[t], time, T)
        IN /\ expired' = expired \cup {t \in Timers : hit(t) /\ dl[t] < T}
           /\ where' = [t \in Timers |-> IF ~hit(t) THEN where[t]
                                          ELSE IF dl[t] < T THEN None ELSE FindBucket(T, dl[t])]
     /\ time' = T
+    /\ tog' = ~tog
     /\ UNCHANGED <<dl, schedAt>>
 
 Next == \/ \E t \in Timers, d \in 0 .. MaxTime : Schedule(t, d)
         \/ \E t \in Timers : Deschedule(t)
         \/ \E t \in Timers, d \in 0 .. MaxTime : Extend(t, d)
-        \/ \E T \in 1 .. MaxTime : Advance(T)
+        \/ \E T \in 0 .. MaxTime : Advance(T)
 Spec == Init /\ [][Next]_vars
 
 \* C13: when maintenance runs at T, every timer whose deadline lies more than one tick before T, and that was
-\* scheduled more than one tick before T, has been expired
+\* write had returned more than one tick before T, has been expired (F23: the time of the write, not the time its event was replayed)
 SweptWithinTick ==
-    [][time' # time => \A t \in Timers : where'[t] # None => (dl[t] + Tick >= time' \/ schedAt[t] + Tick > time')]_vars
+    [][tog' # tog => \A t \in Timers : where'[t] # None => dl[t] + Tick >= time']_vars
 \* nothing expires early
 NoEarlyExpiry == \A t \in expired : dl[t] < time
-TypeOK == \A t \in Timers : where[t] = None \/ (where[t][1] \in 1 .. L /\ where[t][2] \in 0 .. (Buckets[where[t][1]] - 1))
+TypeOK == \A t \in Timers : where[t] = None \/ where[t] = DueList \/ (where[t][1] \in 1 .. L /\ where[t][2] \in 0 .. (Buckets[where[t][1]] - 1))
 =============================================================================
